@@ -7,6 +7,7 @@ import MoreExec.Model.BoolOp
 import MoreExec.Model.Zipper
 import MoreExec.Model.MapFut
 import MoreExec.Model.Apply
+import MoreExec.Model.LockOrder
 open MoreExec.Gen
 
 namespace Driver
@@ -126,8 +127,18 @@ def run (fnO pos kw : String) : String :=
   | .cancelled => "cancelled"
 end K16
 
+def parseKind : String → MoreExec.LockOrder.Kind
+  | "retry" => .retry | "poll" => .poll | "throttle" => .throttle | "timeout" => .timeout
+  | "map" => .map | "flat_map" => .map | "cancel_on_shutdown" => .cos | "sync" => .sync | _ => .other
+
+def parseRole : String → MoreExec.LockOrder.Role
+  | "gate" => .gate | "fut" => .fut | "exec" => .exec | "counter" => .counter | "comb" => .comb
+  | "registry" => .registry | _ => .cond
+
 def oracleLine (ws : List String) : String :=
   match ws with
+  | ["lockorder.allowed", d1, k1, r1, d2, k2, r2] =>
+      toString (MoreExec.LockOrder.allowed ⟨nat! d1, parseKind k1, parseRole r1⟩ ⟨nat! d2, parseKind k2, parseRole r2⟩)
   | "k5.fold" :: "or" :: outId :: ids :: rest => boolFold .or outId ids rest
   | "k5.fold" :: "and" :: outId :: ids :: rest => boolFold .and outId ids rest
   | "k5.update" :: "or" :: outId :: ids :: d :: rest => boolUpdate .or outId ids d rest
